@@ -18,6 +18,8 @@ MANIFEST = {'category': 'proof',
          'reconstructed contig and the length query equals its length, under the stated well-formedness (raw_length '
          '= decoded length, later segments >= k). The model is executed against the real Decompressor on every '
          'contig of generated archives (exhaustive (start,end) for short contigs, every junction +-(k+1) for long '
-         'ones), and the property is evaluated directly on the real code against the slice of get_contig.',
+         'ones), and the property is evaluated directly on the real code against the slice of get_contig. '
+         'range_on_written_archive: on any archive the reference writer produces, after any query history, the range '
+         'query is the slice of the INPUT contig and the length query its length (C07 + C08 + C01 composed).',
  'design_ref': 'DESIGN.md §5 C07',
  'technique': 'Lean 4 proof over a list model + differential correspondence on real archives'}
